@@ -125,6 +125,9 @@ pub struct ImageSpec {
     pub refcount_last: bool,
     /// header l1_size lists only as many entries as are needed for the last mapped cluster
     pub short_l1: bool,
+    /// the bytes behind the header's l1_size entries, up to the end of the table's last cluster,
+    /// hold junk (they are not part of the table: any content is legal there)
+    pub l1_tail_junk: bool,
     /// version 3 header_length (104 = no compression-type byte, as written by old qemu; > 112 = unknown additional fields, zero); 0 = 112
     pub header_length: u32,
     /// number of free host clusters left between consecutive allocations
@@ -162,6 +165,7 @@ impl ImageSpec {
             refcount_last: false,
             short_l1: false,
             header_length: 0,
+            l1_tail_junk: false,
             gap: 0,
             backing_name: None,
             extensions: false,
@@ -405,6 +409,13 @@ pub fn build_image(spec: &ImageSpec) -> Built {
     for i in 0..l1_entries {
         if let Some(c) = l2_cl[i] {
             put64(&mut bytes, (l1_cl << cb) + i * 8, (1u64 << 63) | ((c as u64) << cb));
+        }
+    }
+    if spec.l1_tail_junk {
+        let start = (l1_cl << cb) + l1_entries * 8;
+        let end = (l1_cl + l1_clusters) << cb;
+        for o in (start..end).step_by(8) {
+            put64(&mut bytes, o, word(0xDEAD01, (o / 8) as u32));
         }
     }
     // L2 + data
